@@ -46,8 +46,12 @@ fn gen(rng: &mut Rng, tier: Tier) -> Vec<Case> {
         if i % 6 == 5 { h.lift_to_top(rng.below(4)); } // at the top of the coordinate type
         out.push(Case::new(if small { "boundary" } else { "random" }, enc(&h)));
     }
+    if tier == Tier::Thorough {
+        // LARGE sets (see lap::gen_large_hist)
+        for &n in LARGE_SIZES { let (h, _) = gen_large_hist(rng, n, 0); out.push(Case::new("large", push_flavour(enc(&h), large_ltype(rng)))); }
+    }
     for c in out.iter_mut() {
-        if c.stream == "exhaustive" { continue; }
+        if c.stream == "exhaustive" || c.stream == "large" { continue; }
         let ty = gen_ltype(rng);
         if ty == 0 { continue; }
         if let Some(mut d) = dec(&c.input) { if rng.chance(1, 2) { spread_for_type(rng, &mut d, ty, false); } c.input = push_flavour(enc(&d), ty); }
